@@ -53,7 +53,9 @@ func MustParseTime(value string) Time {
 // TimeFromProto takes a proto Time and returns a System Time.
 func TimeFromProto(proto *dtpb.Time) Time {
 	duration := fhirconv.TimeToDuration(proto)
-	t := time.UnixMicro(duration.Microseconds()).In(time.UTC)
+	// Same reference day as a parsed time literal (time.Parse of a bare clock time yields
+	// January 1, year 0, UTC), so that Times from elements and from literals are comparable.
+	t := time.Date(0, time.January, 1, 0, 0, 0, 0, time.UTC).Add(duration)
 	var l layout
 	switch proto.Precision {
 	case dtpb.Time_MICROSECOND:
